@@ -141,6 +141,8 @@ def run(ctx):
                     if t is not None:
                         truths.add(t)
                         seq.append(('test' if t else 'ntest', e.line))
+                    elif any(x[0] == 'call' and isinstance(x[1], str) and x[1].startswith(VAR + '::') for x in ex.subterms(e.atom)):
+                        seq.append(('utest', e.line))     # a test of the variable through one of its methods: not read by this rule
                 elif e.kind == 'assign' and e.decl and e.rhs[0] == 'call' and isinstance(e.rhs[1], str) and e.rhs[1].endswith('operator*'):
                     seq.append(('iter', e.line))
                 elif e.kind == 'call':
@@ -159,23 +161,25 @@ def run(ctx):
     f = P.fn(SYS + '::expand')
     bad = None
     npaths = 0
+    unrec = False
     for enabled, seq in counter_walk(f):
         npaths += 1
         incs = [i for i, x in enumerate(seq) if x[0] == 'inc']
         decs = [i for i, x in enumerate(seq) if x[0] == 'dec']
         if enabled is None:
-            bad = bad or ('a path does not test the sharing penalty', seq)
+            unrec = True    # the enabledness is tested in a form this rule does not read (a helper, another member): not a verdict
         elif enabled and not (len(incs) == 1 and len(decs) == (1 if any(x[0] == 'expand_add_to_elem' for x in seq) else 0) and all(d < incs[0] for d in decs)):
             bad = bad or ('enabled variable, %s element: %d increase(s), %d decrease(s)' % ('re-weighted' if any(x[0] == 'expand_add_to_elem' for x in seq) else 'new', len(incs), len(decs)), seq)
         elif not enabled and (incs or decs):
             bad = bad or ('disabled variable: the counter is touched', seq)
-    ctx.require(npaths >= 2, 'R1', 'System::expand: paths not recognised')
+    ctx.require(npaths >= 2 and not unrec, 'R1', 'System::expand: a path does not test sharing_penalty_ directly; the enabledness test is not recognised')
     ctx.check(bad is None, 'R1', 'System::expand: the element of an enabled variable is counted exactly once (an old count is given back first), that of a disabled one never',
               where(f, bad[1][-1][1] if bad and bad[1] else None), '%s along %s' % bad if bad else '%d feasible normal path(s)' % npaths, key='R1|expand|counter follows enabledness')
     f = P.fn(SYS + '::var_free')
     bad = None
     npaths = 0
     niter = 0
+    unrec_vf = False
     for enabled, seq in counter_walk(f):
         npaths += 1
         its = []
@@ -188,10 +192,14 @@ def run(ctx):
                 bad = bad or ('a counter update outside the element loop', seq)
         niter += len(its)
         for it in its:
+            if 'utest' in it and 'test' not in it and 'ntest' not in it:
+                unrec_vf = True
+                continue
+            it = [x for x in it if x != 'utest']
             # each element: the positive test directly followed by its decrease, or the negative test and nothing
             if it not in (['test', 'dec'], ['ntest']):
                 bad = bad or ('one element sees %s' % (it or 'no test of the penalty and no counter update'), seq)
-    ctx.require(npaths >= 2 and niter >= 1, 'R1', 'System::var_free: element loop not recognised')
+    ctx.require(npaths >= 2 and niter >= 1 and not unrec_vf, 'R1', 'System::var_free: element loop or enabledness test not recognised')
     ctx.check(bad is None, 'R1', 'System::var_free: one count is given back per element of an enabled variable, none otherwise', where(f, bad[1][-1][1] if bad and bad[1] else None),
               '%s' % bad[0] if bad else '%d feasible normal path(s)' % npaths, key='R1|var_free|counter follows enabledness')
 
